@@ -257,8 +257,10 @@ def main():
             res['nodes'] += len(samples)
             k = '%s/%s' % (tag, mode)
             res['dist'][k] = res['dist'].get(k, 0) + 1
-            if msg and len(res['fails']) < 6:
-                name = msg.split(' ')[0]
+            name = msg.split(' ')[0] if msg else ''
+            if msg:
+                res['n_failing_cases'] = res.get('n_failing_cases', 0) + 1
+            if msg and len(res['fails']) < 4 and ('node:%s' % name) not in [f['key'] for f in res['fails']]:
                 res['fails'].append({'key': 'node:%s' % name, 'msg': msg, 'spec': sp, 'shape': list(shape), 'terms': enc_terms(terms)})
             for (name, xs, ys, p) in samples:
                 idx = (r.randrange(shape[0]), r.randrange(shape[1]))
@@ -274,7 +276,10 @@ def main():
             y = r.choice([-1, 1]) * r.uniform(0.01, 30.0)
             t = [np.array([[x]]), np.array([[y]])]
             sp = ['B', name, ['T', 0], ['T', 1]] if name in BINARY else ['U', name, ['T', 0]]
-            f = float(build(sp, t).position[0, 0])
+            try:
+                f = float(build(sp, t).position[0, 0])
+            except Exception:  # noqa: BLE001  (already reported by the oracle above)
+                continue
             if coq_eligible(name, x, y, f):
                 pool.insert(0, (name, x, y, f))
     # stratified by operator
